@@ -9,6 +9,8 @@ ROOT = os.path.dirname(os.path.dirname(os.path.abspath(__file__)))
 sys.path.insert(0, os.path.join(ROOT, "tools"))
 base = json.load(open(os.path.join(ROOT, "tools", "manifest_base.json")))
 checks, na, served = [], [], {}
+# properties whose check has been verified end to end by the orchestrator (others stay not_applicable until then)
+READY = set(open(os.path.join(ROOT, "tools", "ready.txt")).read().split())
 for i in range(1, 21):
     pid = "C%02d" % i
     try:
@@ -16,6 +18,9 @@ for i in range(1, 21):
         meta = mod.META
     except (ImportError, AttributeError):
         na.append({"property_id": pid, "reason": "check not built yet in this revision (see DESIGN.md section 4 for the planned Coq model and tie)"})
+        continue
+    if pid not in READY:
+        na.append({"property_id": pid, "reason": "check under construction in this revision (model and harness exist; not yet validated end to end)"})
         continue
     if meta.get("not_applicable"):
         na.append({"property_id": pid, "reason": meta["not_applicable"]})
